@@ -461,6 +461,10 @@ def random_loaded_pair(r, opts, cross=None):
     else:
         a = random_doc(r, depth=r.choice((1, 2, 3)))
         b = mutate(a, r)
+        if r.random() < 0.12:
+            # whole documents that are "falsy" values of DIFFERENT kinds (an empty list is not an empty mapping is not null
+            # is not zero is not the empty string): a loader may not take one for another
+            a, b = r.sample(([], {}, 0, False, "", None, 0.0, [[]], [None], {"k": None}), 2)
     trees = []
     for d in (a, b):
         fd, path = tempfile.mkstemp(suffix="." + fmt.split("-")[0], dir=scratch())
